@@ -1,6 +1,8 @@
 """C17 - blacklist-aware genome tiling is an exact partition with contained fetch windows."""
 from pyvc.contract import Contract
-from pyvc.engine import LoopSpec
+import z3
+
+from pyvc.engine import LoopSpec, Builtin, INT, BOOL, STR
 
 PROP = 'C17'
 LEVEL = 'proof'
@@ -187,3 +189,119 @@ blacklisted_binning = Contract(
     },
 )
 UNITS.append(blacklisted_binning)
+
+
+# ------------------------------------------------------------------------------ blacklisted_binning_contigs: every contig is tiled
+# against its own blacklist (the intervals the BED file lists for that contig, none when it lists none)
+BL_HAS = z3.Function('bed_lists_contig', z3.StringSort(), z3.BoolSort())
+BL_S = z3.Function('bed_interval_start', z3.StringSort(), z3.IntSort())
+BL_E = z3.Function('bed_interval_end', z3.StringSort(), z3.IntSort())
+
+
+def bbc_setup(eng):
+    from pyvc.engine import Sym, BoundMethod, PyRaise, GenResult, fresh
+    eng.ghost.clear()
+    eng.ghost['calls'] = []
+    eng.spec_env['GHOST'] = eng.ghost
+
+    def intervals(c):
+        cz = c.z if isinstance(c, Sym) else z3.StringVal(c)
+        return [(Sym(BL_S(cz), INT), Sym(BL_E(cz), INT))]
+
+    class Bed:
+        def vc_contains(self, e, c):
+            return BL_HAS(c.z if isinstance(c, Sym) else z3.StringVal(c))
+
+        def vc_getitem(self, e, c, node=None):
+            if not e.branch(self.vc_contains(e, c)):
+                raise PyRaise('KeyError', node=node)
+            return intervals(c)
+
+        def vc_getattr(self, e, attr, node=None):
+            if attr == 'get':
+                return BoundMethod('get', lambda e2, a, k: intervals(a[0]) if e2.branch(self.vc_contains(e2, a[0])) else (a[1] if len(a) > 1 else None))
+            from pyvc.engine import Unsupported
+            raise Unsupported('bed dict .%s' % attr)
+    eng.loader.call_hooks['singlecellmultiomics.bamProcessing.bamBinCounts.get_bins_from_bed_dict'] = lambda e, f, a, k, n: Bed()
+    eng.spec_env['BED_HAS'] = Builtin('BED_HAS', lambda e, a, k, n: Sym(BL_HAS(a[0].z), BOOL))
+    eng.spec_env['BED_IV'] = Builtin('BED_IV', lambda e, a, k, n: intervals(a[0]))
+
+    def binning(e, f, a, k, n):
+        e.ghost['calls'].append(dict(k))
+        with_fetch = k.get('fragment_size') is not None
+        row = tuple(fresh(INT, 'bin_%d' % i) for i in range(4 if with_fetch else 2))
+        e.ghost.setdefault('rows', []).append(row)
+        return GenResult([row])
+    eng.loader.call_hooks['singlecellmultiomics.bamProcessing.bamBinCounts.blacklisted_binning'] = binning
+
+
+def bbc_head(eng, fr):
+    eng.ghost['mark'] = len(eng.ghost['calls'])
+
+
+NEW_CALL = 'GHOST["calls"][GHOST["mark"]:]'
+binning_contigs = Contract(
+    PROP, F + '::blacklisted_binning_contigs', name='blacklisted_binning_contigs',
+    params={'contig_length_resource': ('seq', (STR, INT), 2), 'bin_size': 'int', 'fragment_size': 'int',
+            'blacklist_path': ('const', 'blacklist.bed'), 'contig_whitelist': 'none'},
+    cases=[{}, {'fragment_size': 'none'}],
+    setup=bbc_setup,
+    yields='checks-only',
+    loops={0: LoopSpec(
+        inv={}, head_hook=bbc_head,
+        types={'contig': 'frame', 'length': 'frame', 'bin_start': 'frame', 'bin_end': 'frame', 'fetch_start': 'frame', 'fetch_end': 'frame'},
+        must_exhaust=True,
+        body_post={
+            'one_tiling_per_contig_over_the_whole_contig':
+                'len(%s) == 1 and %s[0]["start_coord"] == 0 and %s[0]["end_coord"] == length and %s[0]["bin_size"] == bin_size'
+                % (NEW_CALL, NEW_CALL, NEW_CALL, NEW_CALL),
+            'tiled_against_the_blacklist_of_this_contig':
+                'implies(BED_HAS(contig), %s[0]["blacklist"] == BED_IV(contig)) and '
+                'implies(not BED_HAS(contig), len(%s[0]["blacklist"]) == 0)' % (NEW_CALL, NEW_CALL),
+        })},
+    raises={},
+    assumptions=['get_bins_from_bed_dict returns a mapping contig -> intervals (one interval per listed contig modelled: the '
+                 'wrapper only passes the list on, sorted); blacklisted_binning through a recording stub (its own contract above)',
+                 'contig lengths given as (contig, length) pairs (the str branch only calls get_contig_sizes)'],
+)
+UNITS.append(binning_contigs)
+
+
+def bbc_replay(inputs, clause):
+    """real blacklisted_binning_contigs on two contigs, the first with a blacklisted interval in the BED file, the second with
+    none: every base of each contig must be binned or blacklisted (by that contig's own intervals) exactly once"""
+    import os
+    import shutil
+    import tempfile
+    from pyvc.contract import import_real
+    fn = import_real(F, 'blacklisted_binning_contigs')
+    base = os.path.join(os.path.dirname(os.path.dirname(os.path.abspath(__file__))), '.scratch')
+    os.makedirs(base, exist_ok=True)
+    d = tempfile.mkdtemp(prefix='c17c_', dir=base)
+    try:
+        bed = os.path.join(d, 'bl.bed')
+        with open(bed, 'w') as f:
+            f.write('chr1\t3\t8\n')
+        frag = inputs.get('fragment_size')
+        rows = list(fn([('chr1', 20), ('chr2', 20)], 6, frag if frag is None else 2, blacklist_path=bed))
+    finally:
+        shutil.rmtree(d, ignore_errors=True)
+    bl = {'chr1': [(3, 8)], 'chr2': []}
+    failed = []
+    for c in ('chr1', 'chr2'):
+        cover = [0] * 20
+        for r in rows:
+            if r[0] == c:
+                for x in range(r[1], r[2]):
+                    cover[x] += 1
+        for s_, e_ in bl[c]:
+            for x in range(s_, e_):
+                cover[x] += 1
+        bad = [x for x in range(20) if cover[x] != 1]
+        if bad:
+            failed.append({'clause': 'tiled_against_the_blacklist_of_this_contig', 'contig': c, 'bases_not_covered_exactly_once': bad[:10]})
+    obs = {'outcome': 'return', 'value': [list(r) for r in rows]}
+    return {'status': 'confirmed' if failed else 'not-reproduced', 'observed': obs, 'failed': failed}
+
+
+binning_contigs.replay = bbc_replay
